@@ -220,7 +220,13 @@ func goCuratedWorlds() []wWorld {
 		{Head: mh("text_block"), Nested: []wMsg{}}, {Head: mh("sha256Sum"), Nested: []wMsg{}}, inner}}
 	e.Head.Oneofs = []string{"body"}
 	e.Head.Enums = []wEnum{{Name: "kind", Values: []wEnumVal{{"KIND_ZERO", 0}}}}
-	fl.Msgs = []wMsg{a, b, c, d, e}
+	// the conflict loop must start over after every rename: here the colliding nested types are
+	// declared in the order that needs a second pass (Bar_ before Bar, Baz_ before Baz)
+	rev := wMsg{Head: mh("WrapRev", of("bar", 1, 0), of("baz", 2, 0)), Nested: []wMsg{
+		{Head: mh("Bar_"), Nested: []wMsg{}}, {Head: mh("Bar"), Nested: []wMsg{}}}}
+	rev.Head.Oneofs = []string{"c"}
+	rev.Head.Enums = []wEnum{{Name: "Baz_", Values: []wEnumVal{{"BAZ1_ZERO", 0}}}, {Name: "Baz", Values: []wEnumVal{{"BAZ2_ZERO", 0}}}}
+	fl.Msgs = []wMsg{a, b, c, d, e, rev}
 	// a bare-name go_package at the root directory has import path ".", for which protoc-gen-go
 	// emits the qualifier `_` - the same alias as its blank imports of unused dependencies
 	// (false alarm of the thorough tier, seed 1: the source reader resolved `_` to the wrong import)
